@@ -13,7 +13,7 @@ for d in sorted(glob.glob(V + '/seeded/*')):
     pid = os.path.basename(d)
     n += 1
     first = 'caught'
-    if m.get('history', '').startswith('MISSED'):
+    if m.get('history', '').lower().startswith('missed'):
         first = 'MISSED; strengthened'
         miss += 1
     if m.get('history', '').startswith('NOT A VIOLATION'):
@@ -45,5 +45,31 @@ def put(tag, body):
 put('seeded', "\n".join(lines))
 put('fixed', "\n".join(fl))
 put('open', "\n".join(ol))
+# behaviour-preserving edits
+bp = V + '/benign/results.json'
+if os.path.exists(bp):
+    res = json.load(open(bp))
+    first = json.load(open(V + '/benign/results_first_run.json')) if os.path.exists(V + '/benign/results_first_run.json') else []
+    def stats(rs):
+        runs = sum(len(r['checks']) for r in rs)
+        alarms = [(r, c) for r in rs for c, x in r['checks'].items() if x['violations'] or x['exit'] == 1]
+        undec = [(r, c) for r in rs for c, x in r['checks'].items() if x['exit'] == 2 or x['undecided']]
+        return runs, alarms, undec
+    runs, alarms, undec = stats(res)
+    fruns, falarms, fundec = stats(first)
+    kinds = {}
+    for r in res:
+        k = re.sub(r'\s*\(.*', '', r.get('kind', '') or 'other').strip() or 'other'
+        kinds[k] = kinds.get(k, 0) + 1
+    bl = []
+    bl.append("%d behaviour-preserving patches (`/verif/benign/{A,B,C}/*.diff`, each with the reason it preserves behaviour in `index.json`), written by three sub-agents that were given the list of functions under contract but not the contracts; every patch compiles and keeps the package tests green. `tools/try_benign.sh` applies each to a scratch worktree and runs every check whose packages contain a touched directory: %d check runs." % (len(res), runs))
+    bl.append("")
+    bl.append("Kinds of edit: " + "; ".join("%s (%d)" % (k, v) for k, v in sorted(kinds.items(), key=lambda kv: -kv[1])[:14]) + ".")
+    bl.append("")
+    bl.append("First run (engine as it stood before the run): %d alarm(s) in %d runs - %s. Each was a defect of the machinery, corrected in the engine (section 11.6), never by touching the patch or the contract's meaning." % (len(falarms), fruns, "; ".join("%s on %s/%s" % (c, r['set'], r['patch']) for r, c in falarms) or "none"))
+    bl.append("")
+    bl.append("Final run (engine as delivered): %d alarm(s) in %d runs%s. %d run(s) ended undecided (a contract clause names a local the edit removed; exit 0 with an `UNDECIDED` line, evidence level \"other\"): %s." % (
+        len(alarms), runs, (" - " + "; ".join("%s on %s/%s" % (c, r['set'], r['patch']) for r, c in alarms)) if alarms else "", len(undec), "; ".join("%s on %s/%s" % (c, r['set'], r['patch']) for r, c in undec) or "none"))
+    put('benign', "\n".join(bl))
 open(p, 'w').write(s)
 print("seeded", n, "missed-first", miss, "fixed", len(fl) - 2, "open", len(ol) - 2)
